@@ -565,6 +565,9 @@ func (ft *funcTr) wrapRet(val string) string {
 	if ft.t.cfg.StatePassing {
 		return ft.stateReturn(val) // state.go
 	}
+	if ft.segState() {
+		return ft.stateReturn(val) // segstate.go
+	}
 	if ft.mut {
 		if ft.sig.Results().Len() == 0 {
 			val = ft.names[ft.recv]
